@@ -8,8 +8,8 @@ import StraxModel.Model.Pulse
     hitrefs  record_i:left:right joined by `;`, `-` = none
   Outputs print rationals in lowest terms.
 -/
-namespace Strax.Driver
-open Strax Strax.Pulse
+namespace Strax.Driver.C18
+open Strax Strax.Pulse Strax.Driver
 
 def parseQ (s : String) : Option Q :=
   match s.splitOn "/" with
@@ -58,6 +58,11 @@ def showRecords (rs : List Record) : String := showList showRecord rs ";"
 def showRms : Rms → String
   | .sqrtOf v => s!"sqrt{showQ v}"
   | .nan => "nan"
+
+end Strax.Driver.C18
+
+namespace Strax.Driver
+open Strax Strax.Pulse Strax.Driver.C18
 
 def handleC18 : List String → Option String
   | ["c18.hits", amp, hon, recs] => do
